@@ -107,7 +107,7 @@ def run(tier: str, seed: int) -> Report:
     rep.assumptions = ["growth item (DESIGN 5.1), not a listed property; contract from the docstring and the comment block "
                        "of _wait_for_ecu_endless_loop"]
     for c, want in (("t", None), ("n", None), ("dev", "ContractHolds")):
-        res = tlc.run_tlc("MC_EcuWait", f"MC_EcuWait_{c}.cfg", workers=2, timeout=300)
+        res = tlc.run_tlc("MC_EcuWait", f"MC_EcuWait_{c}.cfg", workers=1, timeout=300)
         rep.add_tlc(res, f"MC_EcuWait_{c}")
         if res.violated != want:
             if want:
